@@ -135,11 +135,47 @@ def run_both(story, ops, rng):
 
 
 def bundle_check(chk, rng):
+    """Bundle contents.  Every build is compared with a fresh compile of the same entry file: into a new directory,
+    again into the same directory after only the included file changed, into a directory that already holds another
+    story's bundle (entry file older than that bundle), and from an already compiled .json."""
+    from pathlib import Path
     from bardic.cli.bundler import create_browser_bundle
     from bardic.compiler.compiler import BardCompiler
     tmp = tempfile.mkdtemp(prefix="bardic_verif_bundle_")
     done = 0
+    real_copytree = shutil.copytree
+
+    def light_copytree(srcp, dst, *a, **kw):      # do not copy the 17 MB pyodide runtime
+        if "pyodide" in os.path.basename(str(srcp)):
+            os.makedirs(dst, exist_ok=True)
+            return dst
+        return real_copytree(srcp, dst, *a, **kw)
+
+    def build_and_compare(entry, outdir, how, texts):
+        nonlocal done
+        with C.quiet():
+            try:
+                expected = json.loads(open(BardCompiler().compile_file(entry, os.path.join(tmp, "expected.json"))).read())
+            except Exception:
+                return
+            shutil.copytree = light_copytree
+            try:
+                create_browser_bundle(Path(entry), Path(outdir), minimal=True)
+            finally:
+                shutil.copytree = real_copytree
+        done += 1
+        got = json.loads(open(os.path.join(outdir, "game.json")).read())
+        if got != expected:
+            chk.report("bundle-story-differs-from-compile:" + how,
+                       f"game.json in the bundle ({how}) is not what compile_file produces for the same entry file",
+                       dict(texts, how=how))
+        tpl = open(os.path.join(C.REPO, "bardic", "templates", "browser", "engine_browser.py"), "rb").read()
+        cp = open(os.path.join(outdir, "engine_browser.py"), "rb").read()
+        if tpl != cp:
+            chk.report("bundle-engine-not-the-template", "the engine copied into the bundle differs from the template", {})
+
     try:
+        prev_out = None
         for k in range(2):
             g = G.Gen(random.Random(rng.randrange(10 ** 9)), G.Profile(browser_subset=True))
             src = g.source()
@@ -148,38 +184,42 @@ def bundle_check(chk, rng):
             # split the last passage into an included file
             parts = src.split("\n:: ")
             main_txt = "\n:: ".join(parts[:-1]) + "\n@include parts/last.bard\n"
-            open(os.path.join(story_dir, "parts", "last.bard"), "w").write(":: " + parts[-1])
+            inc = os.path.join(story_dir, "parts", "last.bard")
+            open(inc, "w").write(":: " + parts[-1])
             entry = os.path.join(story_dir, "main.bard")
             open(entry, "w").write(main_txt)
+            texts = {"entry_text": main_txt, "included_text": ":: " + parts[-1]}
             outdir = os.path.join(tmp, f"out{k}")
-            with C.quiet():
-                try:
-                    expected = json.loads(open(BardCompiler().compile_file(entry, os.path.join(tmp, f"exp{k}.json"))).read())
-                except Exception:
-                    continue
-                real_copytree = shutil.copytree
-
-                def light_copytree(srcp, dst, *a, **kw):      # do not copy the 17 MB pyodide runtime
-                    if "pyodide" in os.path.basename(str(srcp)):
-                        os.makedirs(dst, exist_ok=True)
-                        return dst
-                    return real_copytree(srcp, dst, *a, **kw)
-                shutil.copytree = light_copytree
-                try:
-                    from pathlib import Path
-                    create_browser_bundle(Path(entry), Path(outdir), minimal=True)
-                finally:
-                    shutil.copytree = real_copytree
-            done += 1
-            got = json.loads(open(os.path.join(outdir, "game.json")).read())
-            if got != expected:
-                chk.report("bundle-story-differs-from-compile", "game.json in the bundle is not what compile_file produces",
-                           {"entry_text": main_txt, "included_text": ":: " + parts[-1]})
-            tpl = open(os.path.join(C.REPO, "bardic", "templates", "browser", "engine_browser.py"), "rb").read()
-            cp = open(os.path.join(outdir, "engine_browser.py"), "rb").read()
-            if tpl != cp:
-                chk.report("bundle-engine-not-the-template", "the engine copied into the bundle differs from the template", {})
+            build_and_compare(entry, outdir, "new-directory", texts)
+            # only the included file changes (the entry file keeps its old modification time); same directory
+            os.utime(entry, (1_000_000_000, 1_000_000_000))
+            open(inc, "a").write("\n:: Appendix\nAdded later.\n+ [Again] -> Appendix\n")
+            build_and_compare(entry, outdir, "same-directory-after-include-changed",
+                              dict(texts, appended=":: Appendix ..."))
+            # this (older) story into the directory that already holds the previous story's bundle
+            if prev_out:
+                build_and_compare(entry, prev_out, "directory-of-another-story", texts)
+            # from an already compiled .json
+            try:
+                with C.quiet():
+                    cj = BardCompiler().compile_file(entry, os.path.join(story_dir, "compiled.json"))
+                build_and_compare_json = json.loads(open(cj).read())
+                outj = os.path.join(tmp, f"outj{k}")
+                with C.quiet():
+                    shutil.copytree = light_copytree
+                    try:
+                        create_browser_bundle(Path(cj), Path(outj), minimal=True)
+                    finally:
+                        shutil.copytree = real_copytree
+                done += 1
+                if json.loads(open(os.path.join(outj, "game.json")).read()) != build_and_compare_json:
+                    chk.report("bundle-story-differs-from-compile:from-json",
+                               "game.json in a bundle built from a compiled .json differs from that .json", texts)
+            except Exception:
+                pass
+            prev_out = outdir
     finally:
+        shutil.copytree = real_copytree
         shutil.rmtree(tmp, ignore_errors=True)
     return done
 
